@@ -42,6 +42,10 @@ class C01(Prop):
     assumptions = ["input read as text (CRLF already normalised by Python's text mode)",
                    "the tools are driven through the FileText path, as bin/tidy-imports does"]
 
+    def exhaustive_cases(self, tier, rng):
+        # real-world corpus: stdlib / site-packages modules through reformat and tidy
+        return R.file_corpus_cases(700 if tier == "thorough" else 12, rng)
+
     def gen_case(self, rng, i, tier):
         return R.gen_rewriter_case(rng)
 
